@@ -41,6 +41,7 @@ def main():
     # one unit under two prefixes with an integer magnitude (nothing may fold the prefix into the number the user wrote)
     free += ["m" * 1500, "k" * 1500 + "g^2", "5 " + "m" * 1500, "μ" * 3000, "da" * 800, "m" * 40, "Mk" * 700 + "m", "5 " + "G" * 2500 + "Hz"]
     free += ["5 m/km", "5 mm/m", "5 cm^2/m^2", "3 μs/s", "5 B/KiB", "7 km/m", "5 kg/g", "1e999 m^200/km^200", "5 Mm/km", "12 ms/ks", "5 m/m", "5 km/km", "0 mm/m", "-4 mg/kg"]
+    free += ["kB^1" + "0" * 308, "kB^-1" + "0" * 308, "5 MB^1" + "0" * 308, "KiB km^1" + "0" * 308, "GB^9" + "0" * 307 + "/s"]      # float-exponent prefixes raised beyond the float range
     free += ["km zeebles", "Mm kg $", "5 mA zeebles", "mA/zeebles", "kHz⋅zz", "μs ms ns qq", "5 km/", "km ^2", "kHz MHz GHz THz zz"]     # a prefixed unit resolved before the input is rejected
     alphabet = "mskgKAΩμ°.-()15 ^*/⋅²⁻¹eE+\t\n" + "".join(chr(rng.randrange(32, 0x3000)) for _ in range(40)) + "\u0000퟿\U0001F600"
     for _ in range(500 if quick else 10000):
@@ -62,6 +63,8 @@ def main():
             else: stats[x["err"]] += 1
             if x.get("registry_unchanged") is False:
                 c.violation("registry-changed-on-reject", f"a rejected input changed the registered names / symbols", repl)
+            if x.get("again_differs"):
+                c.violation("not-deterministic", f"the text was rejected ({x['err']}) and, parsed a second time, {x['again_differs']}", dict(repl, second_time=x["again_differs"]))
         else:
             stats["accepted"] += 1
             if not x.get("again_same"):
